@@ -3,6 +3,7 @@
 EXTENDS FastParse, SequencesExt
 
 CONSTANTS TreeLevel,   \* 0: no generic trees, 1: quick alphabets, 2: thorough alphabets
+          MaxHitsKeys, \* generic trees: up to MaxHitsKeys members in the object under `hits` (root: up to 3)
           MaxItems,    \* bulk responses of up to MaxItems items
           MaxHits,     \* search responses of up to MaxHits hits
           MaxPages     \* paginated runs of up to MaxPages responses
@@ -37,9 +38,9 @@ AkV == {Obj(<<>>), O1("a", S1), O2("a", S1, "b", Num(2)), O1("a", O1("b", Num(1)
        \cup (IF TreeLevel > 1 THEN {O1("a", Arr(<<Num(1)>>)), Arr(<<>>), O2("b", TrueV, "a", S1), O1("took", Num(1))} ELSE {})
 UnderHits == [k \in {"total", "hits", "ak", "x"} |->
                 CASE k = "total" -> TotalV [] k = "hits" -> ListV [] k = "ak" -> AkV [] k = "x" -> {Num(1)}]
-HitsV == {Num(1), Arr(<<>>)} \cup Objs(IF TreeLevel > 1 THEN 3 ELSE 2, UnderHits)
-TookV == {Num(5), S1, NullV, O1("took", Num(2))} \cup (IF TreeLevel > 1 THEN {Arr(<<Num(2)>>), TrueV} ELSE {})
-RootXV == {Num(1), O1("took", Num(2)), O1("hits", O1("total", Num(9)))}
+HitsV == {Num(1), Arr(<<>>)} \cup Objs(MaxHitsKeys, UnderHits)
+TookV == {Num(5), NullV, O1("took", Num(2))} \cup (IF TreeLevel > 1 THEN {S1, Arr(<<Num(2)>>), TrueV} ELSE {})
+RootXV == {Num(1), O1("took", Num(2))} \cup (IF TreeLevel > 1 THEN {O1("hits", O1("total", Num(9)))} ELSE {})
 UnderRoot == [k \in {"took", "hits", "x"} |-> CASE k = "took" -> TookV [] k = "hits" -> HitsV [] k = "x" -> RootXV]
 RootKeySeqs == OrdSeqs(DOMAIN UnderRoot, 3)
 
